@@ -330,8 +330,16 @@ class IntegralGenerator:
                 continue
             v = attr["expression"]
 
-            # Generate code only if the expression is not already in cache
-            if not self.get_var(quadrature_rule, domain, v):
+            # Generate code only if the expression is not already in cache.
+            # A value that varies over the points of this rule must come from this
+            # rule's own scope: the shared piecewise scope may hold a value cached
+            # by another rule for which the expression is piecewise (e.g. a
+            # one-point rule), which is not valid at the points of this rule.
+            if mode == "varying" and not v._ufl_is_literal_:
+                cached = self.scopes[(domain, quadrature_rule)].get(v)
+            else:
+                cached = self.get_var(quadrature_rule, domain, v)
+            if not cached:
                 if v._ufl_is_literal_:
                     vaccess = L.ufl_to_lnodes(v)
                 elif mt := attr.get("mt"):
